@@ -7,27 +7,45 @@ From T38 Require Import Base.Bytes Model.Glob Proofs.GlobProofs.
 From T38 Require Import Model.Collection Proofs.CollectionProofs Model.GlobSel Proofs.GlobSelProofs.
 Import ListNotations.
 
-(* SCAN key MATCH p1 ... MATCH pn [DESC]: the range derived from all the patterns never changes
-   the result — the reply is exactly the ids accepted by the filter (some pattern matches), in
-   id order, reversed for DESC. *)
-Theorem c12_scan_multi_match_exact : forall globs desc ids,
-  bsorted ids -> (forall p, In p globs -> prefix_ends_ff p = false) ->
-  scan_multi globs desc ids = filter (glob_test globs) (if desc then rev ids else ids).
+(* SCAN key MATCH p1 ... MATCH pn [WHERE ...] [DESC] [LIMIT n] IDS | COUNT.  The model is the loop
+   as written: the entries multiGlobParse + Scan / ScanRange visit, each handed to
+   pushObject -> testObject -> globMatch with their (ok, keepGoing) results, the walk ending at
+   the first keepGoing = false.  Neither the range derived from all the patterns nor any early
+   exit changes the result: the reply is the first LIMIT ids accepted by MATCH (some pattern
+   matches) and by the field filter, in id order (reversed for DESC); COUNT is their number. *)
+Theorem c12_scan_multi_match_exact : forall globs fok limit (desc : bool) (ids : list bytes),
+  bsorted ids -> (forall p, In p globs -> prefix_ends_ff p = false) -> (1 <= limit)%N ->
+  let all := if desc then rev ids else ids in
+  out_items (scan_multi globs fok limit false desc ids) =
+    firstn (N.to_nat limit) (filter (scan_sel globs fok) all) /\
+  out_count (scan_multi globs fok limit true desc ids) =
+    N.min limit (N.of_nat (length (filter (scan_sel globs fok) all))).
 Proof. exact scan_multi_exact. Qed.
 Print Assumptions c12_scan_multi_match_exact.
 
-(* the same for SEARCH over the value index, entries (value, id) in (value, id) order *)
-Theorem c12_search_multi_match_exact : forall globs desc vs,
-  vsorted vs -> (forall p, In p globs -> prefix_ends_ff p = false) ->
-  search_multi globs desc vs =
-  map snd (filter (fun e : ventry => glob_test globs (fst e)) (if desc then rev vs else vs)).
+(* the same for SEARCH, where the patterns are applied to the string VALUE: entries (value, id)
+   in (value, id) order, any number of ids sharing one value — all of them are returned *)
+Theorem c12_search_multi_match_exact : forall globs fok limit (desc : bool) (vs : list ventry),
+  vsorted vs -> (forall p, In p globs -> prefix_ends_ff p = false) -> (1 <= limit)%N ->
+  let all := if desc then rev vs else vs in
+  map snd (out_items (search_multi globs fok limit false desc vs)) =
+    map snd (firstn (N.to_nat limit) (filter (search_sel globs fok) all)) /\
+  out_count (search_multi globs fok limit true desc vs) =
+    N.min limit (N.of_nat (length (filter (search_sel globs fok) all))).
 Proof. exact search_multi_exact. Qed.
 Print Assumptions c12_search_multi_match_exact.
 
-(* ASC / DESC only reverse the order, for any number of patterns *)
-Theorem c12_scan_multi_desc_only_reverses : forall globs ids,
-  bsorted ids -> (forall p, In p globs -> prefix_ends_ff p = false) ->
-  scan_multi globs true ids = rev (scan_multi globs false ids).
+(* the iteration-control results themselves: globMatch and testObject never ask the walk to stop *)
+Theorem c12_test_object_keeps_going : forall (globs : list bytes) (fok : ventry -> bool) (e : ventry),
+  glob_match_kg globs fst e = (glob_test globs (fst e), true) /\
+  test_object globs fst fok e = (search_sel globs fok e, true).
+Proof. exact test_object_keeps_going. Qed.
+Print Assumptions c12_test_object_keeps_going.
+
+(* ASC / DESC only reverse the order, for any number of patterns (LIMIT above the collection size) *)
+Theorem c12_scan_multi_desc_only_reverses : forall globs fok limit ids,
+  bsorted ids -> (forall p, In p globs -> prefix_ends_ff p = false) -> (N.of_nat (length ids) < limit)%N ->
+  out_items (scan_multi globs fok limit false true ids) = rev (out_items (scan_multi globs fok limit false false ids)).
 Proof. exact scan_multi_desc_rev. Qed.
 Print Assumptions c12_scan_multi_desc_only_reverses.
 
@@ -65,7 +83,10 @@ Print Assumptions c12_count_shortcut_exact.
    empty geometry and changes the kind of an id *)
 Example c12_sel_nonvacuous :
   let a1 := [97; 49] in let a2 := [97; 50] in let c1 := [99; 49] in let d1 := [100; 49] in
-  scan_multi [[97; STAR]; [99; STAR]] true [a1; a2; c1; d1] = [c1; a2; a1] /\
+  out_items (scan_multi [[97; STAR]; [99; STAR]] (fun _ => true) 100 false true [a1; a2; c1; d1]) = [c1; a2; a1] /\
+  (* three ids share the value "a1": a literal MATCH returns all of them, COUNT = 3 *)
+  map snd (out_items (search_multi [a1] (fun _ => true) 100 false false [(a1, a1); (a1, a2); (a1, c1); (c1, d1)])) = [a1; a2; c1] /\
+  out_count (search_multi [a1] (fun _ => true) 100 true true [(a1, a1); (a1, a2); (a1, c1); (c1, d1)]) = 3%N /\
   multi_glob_parse [[97; STAR]; [99; STAR]] true = ([100], [96]) /\
   hook_walk [STAR] false [(a1, false); (a2, true); (c1, false)] = [a1; c1] /\
   hook_walk [97; STAR] true [(a1, false); (a2, true); (c1, true)] = [a2].
